@@ -356,7 +356,7 @@ func explore(r *mon.Run, prop string) {
 	perRule := r.Pick(2, 4)
 	nperm := 1
 	if prop == "C02" {
-		nperm = r.Pick(4, 12)
+		nperm = r.Pick(4, 30)
 	}
 	for id := 0; id < nsets; id++ {
 		rs := o.GenRuleSet(rng, id)
